@@ -359,6 +359,22 @@ class Interp:
                     continue
             if not broke:
                 self.block(st.orelse, env)
+        elif isinstance(st, ast.While):
+            n_ = 0
+            broke = False
+            while self.truth(self.eval(st.test, env)):
+                n_ += 1
+                if n_ > 500:
+                    raise Undecided("loop does not end within 500 iterations on the model input")
+                try:
+                    self.block(st.body, env)
+                except _Break:
+                    broke = True
+                    break
+                except _Continue:
+                    continue
+            if not broke:
+                self.block(st.orelse, env)
         elif isinstance(st, ast.Break):
             raise _Break()
         elif isinstance(st, ast.Continue):
@@ -536,6 +552,8 @@ class Interp:
                 return l + r
             if isinstance(e.op, ast.BitOr) and isinstance(l, dict) and isinstance(r, dict):
                 return {**l, **r}
+            if isinstance(l, (set, frozenset)) and isinstance(r, (set, frozenset)) and isinstance(e.op, (ast.BitOr, ast.BitAnd, ast.Sub)):
+                return l | r if isinstance(e.op, ast.BitOr) else l & r if isinstance(e.op, ast.BitAnd) else l - r
             if all(isinstance(x, (int, float)) and not isinstance(x, bool) for x in (l, r)) and isinstance(e.op, (ast.Add, ast.Sub, ast.Mult)):
                 return {ast.Add: l + r, ast.Sub: l - r, ast.Mult: l * r}[type(e.op)]
             if all(isinstance(x, (int, float)) and not isinstance(x, bool) for x in (l, r)) and isinstance(e.op, (ast.Div, ast.FloorDiv, ast.Mod)):
@@ -962,6 +980,21 @@ class Interp:
             if name == "index" or name == "count":
                 raise Undecided(f"list.{name}")
             raise Undecided(f"list.{name}")
+        if isinstance(recv, set):
+            if name == "add" and len(args) == 1:
+                recv.add(self.hashable(args[0]))
+                return None
+            if name in ("update", "union"):
+                out_ = recv if name == "update" else set(recv)
+                for a_ in args:
+                    out_ |= {self.hashable(x) for x in self.iterate(a_)}
+                return None if name == "update" else out_
+            if name == "discard" and len(args) == 1:
+                recv.discard(self.hashable(args[0]))
+                return None
+            if name == "copy" and not args:
+                return set(recv)
+            raise Undecided(f"set.{name}")
         if isinstance(recv, tuple):
             raise Undecided(f"tuple.{name}")
         if isinstance(recv, str):
